@@ -25,7 +25,7 @@ def gen_path(rng, targets, kind=None):
     if kind == "url":
         return rng.choice(["URL:http://www.example.org/", "URL:ftp://host/path", "/URL:http://h/x"])
     if kind == "rel":
-        return rng.choice(["lindner", "1/Moo/Cheesy", "sub/inner.txt"])
+        return rng.choice(["lindner", "1/Moo/Cheesy", "sub/inner.txt", "x/../y.txt", "deep/./er/file"])
     return rng.choice(["/elsewhere/a", "/1/Moo", "/x y", "/elsewhere/dir/"]) if kind == "abs" else "/other/%d" % rng.randrange(50)
 
 
@@ -62,10 +62,11 @@ def gen_block(rng, targets, override=None):
                 if v[-1].endswith("\\"):
                     v[-1] += "."
         out.append((k, v))
-    # a relative Path is only well-formed with an explicit host or port (the finger example of the manual)
-    d = dict(out)
-    if not override and not d["Path"].startswith(("/", "URL:")):
-        out = [(k, ("finger.example" if k == "Host" and v == "+" else v)) for k, v in out]
+    # a relative Path= goes with any Host=/Port= (a name, `+`, or no such line): with neither host nor
+    # port of its own the link is to this server and the path is relative to this directory
+    if not override and not dict(out)["Path"].startswith(("/", "URL:")) and rng.random() < 0.4:
+        drop = rng.choice([("Host",), ("Port",), ("Host", "Port")])
+        out = [(k, v) for k, v in out if k not in drop]
     rng.shuffle(out)
     comments = [rng.choice(["# a comment", "#", "#Name=not a field"]) for _ in range(rng.choice([0, 0, 0, 1, 2]))]
     return {"comments": comments, "fields": out}
@@ -120,6 +121,9 @@ def gen_malformed(rng, targets):
 # ----------------------------------------------------------------------------
 # reference reading (twin of UMNSpec.v), written from the manual only
 # ----------------------------------------------------------------------------
+import posixpath
+
+
 def spec_entry(base, b):
     """block -> dict(selector, type, name, host, port, num, abstract, override)
     host/port None = this server ('+' or absent); num None = not numbered by this block."""
@@ -128,27 +132,39 @@ def spec_entry(base, b):
     if path.endswith("/"):
         path = path[:-1]        # selectors never end with a slash (the server normalises every selector so)
     override = path.startswith("./") or path.startswith("~/")
-    sel = base + "/" + path[2:] if override else path
+    host = None if d.get("Host", "+") == "+" else d["Host"]
+    port = None if d.get("Port", "+") == "+" else int(d["Port"])
+    if override:
+        sel = base + "/" + path[2:]
+    elif path.startswith("/") or path.startswith("URL:") or host is not None or port is not None:
+        sel = path
+    else:
+        # a relative path on this server (`+` or nothing for host and port) is relative to this directory
+        sel = posixpath.normpath(base + "/" + path)
     ab = d.get("Abstract")
     return {"selector": sel, "override": override, "type": d.get("Type"), "name": d.get("Name"),
-            "host": None if d.get("Host", "+") == "+" else d["Host"],
-            "port": None if d.get("Port", "+") == "+" else int(d["Port"]),
+            "host": host,
+            "port": port,
             "num": int(d["Numb"]) if "Numb" in d else None,
             "abstract": "\n".join(ab) if ab else None,
             "fields": set(d)}
 
 
-def spec_apply(entries, base, blocks):
+def spec_apply(entries, base, blocks, hidden=None):
     """entries: list of dicts (selector,type,name,host,port,num,abstract) in any order.
     Applies blocks in order; returns the new list."""
     out = [dict(e) for e in entries]
+    hidden = hidden if hidden is not None else set()
     for b in blocks:
         s = spec_entry(base, b)
+        if s["override"] and s["selector"] in hidden:
+            continue            # hidden stays hidden, whatever later blocks say about the same file
         tgt = [e for e in out if e["selector"] == s["selector"]] if s["override"] else []
         if s["override"] and tgt:
             e = tgt[0]
             if s["type"] in ("X", "-"):
                 out.remove(e)
+                hidden.add(s["selector"])
                 continue
             for k in ("type", "name", "num", "abstract"):
                 if s[k] is not None:
